@@ -88,7 +88,9 @@ def classify(prop, merged, findings):
         keys = v['stream'].split('+') if v['stream'] != 'main' else []
         hit = [k for k in keys if k in open_f and v['clause'] in open_f[k]['clauses']]
         if hit:
-            known[hit[0]].append(v)
+            # a finding counts as reproduced only by its pure confirmation stream; a case that
+            # exercises several open findings at once is accepted but attributed to none
+            known[hit[0] if len(keys) == 1 else '(combined)'].append(v)
         else:
             new[(v['stream'], v['clause'])].append(v)
     return open_f, known, new
@@ -149,9 +151,9 @@ def run_check(prop, tier, seed):
     for key, f in open_f.items():
         vs = known.get(key, [])
         n = sum(c for k, c in merged['violation_counts'].items()
-                if k.split('|')[0].split('+').count(key) and k.split('|', 1)[1] in f['clauses'])
+                if k.split('|')[0] == key and k.split('|', 1)[1] in f['clauses'])
         known_report[key] = dict(reproduced=bool(vs), cases=n,
-                                 confirmation_cases=sum(c for s, c in merged['streams'].items() if key in s.split('+')))
+                                 confirmation_cases=merged['streams'].get(key, 0))
         if vs:
             lines.append(f"KNOWN-FINDING: property={prop} {key}: {f['what']} (witness: {vs[0]['msg'][:160]})")
     replays = []
